@@ -415,6 +415,113 @@ def _rank_off(e, f, depth=0):
     return rk(e)
 
 
+@guarded
+def rule_pivots(repo, tier):
+    """The quaternion is extracted from R by dividing a candidate by sqrt(t) with t = 1 + s0 R00 + s1 R11 + s2 R22 = 4 q_k^2 for one of the four sign
+    patterns (+,-,-), (-,+,-), (-,-,+), (+,+,+) (k = x, y, z, w).  The four t sum to 4, so only the LARGEST is bounded away from zero (>= 1); a
+    selection that can never pick one of the four divides by a t that vanishes on the rotations where that component dominates (half turns about that
+    axis, resp. small rotations).  Every pattern is therefore present among the divisors that reach the returned quaternion."""
+    res = RuleResult('C11.PIVOT', 'mat2SO3: all four pivots 1 +- R00 +- R11 +- R22 (one per dominant quaternion component) reach the normalisation of the '
+                     'returned quaternion', floor=1)
+    f = repo.func(CV, 'mat2SO3')
+    defs = {}
+    for n in ast.walk(f.node):
+        if isinstance(n, ast.Assign) and len(n.targets) == 1 and isinstance(n.targets[0], ast.Name):
+            defs.setdefault(n.targets[0].id, []).append(n.value)
+
+    def pattern(e):
+        """sign pattern (s0, s1, s2) of 1 +- X[...,0,0] +- X[...,1,1] +- X[...,2,2], or None"""
+        terms = []
+        def flat(x, sign):
+            if isinstance(x, ast.BinOp) and isinstance(x.op, ast.Add):
+                flat(x.left, sign); flat(x.right, sign)
+            elif isinstance(x, ast.BinOp) and isinstance(x.op, ast.Sub):
+                flat(x.left, sign); flat(x.right, -sign)
+            elif isinstance(x, ast.UnaryOp) and isinstance(x.op, ast.USub):
+                flat(x.operand, -sign)
+            else:
+                terms.append((sign, x))
+        flat(e, 1)
+        pat = {}
+        one = False
+        for sg, t in terms:
+            if isinstance(t, ast.Constant) and t.value == 1 and sg == 1:
+                one = True
+            elif isinstance(t, ast.Subscript) and isinstance(t.slice, ast.Tuple):
+                idx = [x.value for x in t.slice.elts if isinstance(x, ast.Constant) and isinstance(x.value, int)]
+                if len(idx) == 2 and idx[0] == idx[1] and idx[0] in (0, 1, 2):
+                    pat[idx[0]] = sg
+                else:
+                    return None
+            else:
+                return None
+        if one and set(pat) == {0, 1, 2}:
+            return (pat[0], pat[1], pat[2])
+        return None
+    pivots = {nm: pattern(v[0]) for nm, v in defs.items() if len(v) == 1 and pattern(v[0]) is not None}
+    # names (transitively) used by the expression that divides the returned quaternion
+    used = set()
+    def reach(e, depth=0):
+        for x in ast.walk(e):
+            if isinstance(x, ast.Name) and x.id not in used and depth < 8:
+                used.add(x.id)
+                for v in defs.get(x.id, []):
+                    reach(v, depth + 1)
+    for n in ast.walk(f.node):
+        if isinstance(n, ast.AugAssign) and isinstance(n.op, ast.Div):
+            reach(n.value)
+        elif isinstance(n, ast.BinOp) and isinstance(n.op, ast.Div) and any(isinstance(c, ast.Call) and (dotted(c.func) or '').split('.')[-1] == 'sqrt' for c in ast.walk(n.right)):
+            reach(n.right)
+    got = {pivots[nm] for nm in used if nm in pivots}
+    want = {(1, -1, -1), (-1, 1, -1), (-1, -1, 1), (1, 1, 1)}
+    res.inst({'function': f.fq, 'pivots reaching the normalisation': sorted(got), 'all four': got == want}, 'pivots')
+    if not pivots:
+        raise AnalysisError('C11.PIVOT: no pivot expression 1 +- R00 +- R11 +- R22 found in mat2SO3')
+    for miss in sorted(want - got):
+        comp = {(1, -1, -1): 'x', (-1, 1, -1): 'y', (-1, -1, 1): 'z', (1, 1, 1): 'w'}[miss]
+        res.add(Finding('C11.PIVOT', f, 'the pivot 4 q_%s^2 = 1 %+d R00 %+d R11 %+d R22 never reaches the normalisation of the returned quaternion: rotations whose '
+                        'quaternion is dominated by its %s component (%s) are extracted with a divisor that vanishes there' %
+                        (comp, miss[0], miss[1], miss[2], comp, 'small rotations' if comp == 'w' else 'half turns about the %s axis' % comp),
+                        construct='pivot %s' % comp))
+    return res
+
+
+@guarded
+def rule_tcol(repo, tier):
+    """The accepted layouts are 3x3, 3x4 and 4x4.  Whether a translation column exists is a question about the COLUMN count: 3x3 has none, 3x4 and
+    4x4 have one.  The row count cannot tell 3x3 from 3x4 (both have three rows), so a test on shape[-2] hands a 3x4 [sR | t] matrix the zero
+    translation meant for 3x3 input."""
+    res = RuleResult('C11.TCOL', 'mat2SE3 / mat2Sim3 decide "no translation column" by the number of columns (shape[-1] == 3 or shape[-2:] == (3, 3))', floor=2)
+    for q in ('mat2SE3', 'mat2Sim3'):
+        f = repo.func(CV, q)
+        p0 = f.pos_params[0]
+        shapes = {p0 + '.shape'}
+        for a in ast.walk(f.node):
+            if isinstance(a, ast.Assign) and dotted(a.value) == p0 + '.shape':
+                shapes |= {t.id for t in a.targets if isinstance(t, ast.Name)}
+        n = 0
+        for st in ast.walk(f.node):
+            if not isinstance(st, ast.If):
+                continue
+            zero_t = any(isinstance(a, ast.Assign) and any(isinstance(c, ast.Call) and (dotted(c.func) or '').split('.')[-1] in ('zeros', 'zeros_like') for c in ast.walk(a.value))
+                         for a in st.body)
+            if not zero_t or not isinstance(st.test, ast.Compare):
+                continue
+            l = st.test.left
+            if not (isinstance(l, ast.Subscript) and dotted(l.value) in shapes):
+                continue
+            n += 1
+            sl = src(l.slice).replace(' ', '')
+            ok = sl in ('-1', '-2:') 
+            res.inst({'function': f.fq, 'test': src(st.test)[:40], 'looks at the columns': ok}, (f.fq, src(st.test)))
+            if not ok:
+                res.add(Finding('C11.TCOL', f, '`%s` decides that the input has no translation column from `%s`: 3x3 and 3x4 inputs both have three rows, so a 3x4 '
+                                'matrix loses its translation' % (src(st.test)[:40], src(l)), node=st))
+        if n == 0:
+            raise AnalysisError('C11.TCOL: the zero-translation branch of %s was not found' % q)
+    return res
+
+
 ANGLE_FUNCS = {'asin', 'arcsin', 'acos', 'arccos', 'atan', 'arctan', 'atan2', 'arctan2'}
 
 
@@ -484,7 +591,7 @@ def rule_gimbal(repo, tier):
 def _rules_core(repo, tier):
     from ..effects import rule_pure
     t = [(CV, q) for q in ('mat2SO3', 'mat2SE3', 'mat2Sim3', 'mat2RxSO3', 'from_matrix', 'euler2SO3', 'quat2unit')]
-    return rule_mp_pair(repo) + [rule_fwd(repo), rule_raise(repo), rule_disp(repo), rule_lt(repo), rule_gimbal(repo, tier), rule_degree(repo, tier),
+    return rule_mp_pair(repo) + [rule_fwd(repo), rule_raise(repo), rule_disp(repo), rule_lt(repo), rule_gimbal(repo, tier), rule_degree(repo, tier), rule_tcol(repo, tier), rule_pivots(repo, tier),
                                  rule_pure(repo, 'C11.PURE', 'the converters do not write into the matrix / angles they are given (also not on the rejecting '
                                            'path): converting the same tensor twice gives the same element', t)]
 
@@ -501,4 +608,4 @@ def rules(repo, tier):
                                                       'before it is complete - a later call with the same object and other contents must not be answered from it',
                                                       ['pypose.lietensor.convert'], floor=3),
             rule_optional(repo, 'C11.OPT', ['pypose.lietensor.convert'])] + mode_rules(repo, 'C11', ['pypose.lietensor.convert']) + [rule_callsig(repo, 'C11.SIG', ['pypose.lietensor.convert']), rule_docsig(repo, 'C11.DOC', ['pypose.lietensor.convert'])] + [
-            rule_axisdefault(repo, 'C11.AXDEF', ['pypose.lietensor.convert'])]
+            rule_axisdefault(repo, 'C11.AXDEF', ['pypose.lietensor.convert']), __import__('sa.axisdefault', fromlist=['x']).rule_frontaxis(repo, 'C11.BAX', ['pypose.lietensor.lietensor', 'pypose.lietensor.operation', 'pypose.lietensor.basics', 'pypose.lietensor.utils', 'pypose.lietensor.convert'])]
